@@ -12,7 +12,7 @@ TECH = ('symbolic execution of rustc MIR (mirsym) + z3 of the real BuildJob::sta
         'native replay with the real binaries')
 
 PLAN = {
-    'C04': ['record', 'preamble'],
+    'C04': ['record', 'preamble', 'tmpnames'],
     'C10': ['crash'],
     'C11': ['preamble'],
 }
@@ -35,6 +35,8 @@ def main(pid):
                 buildjob.record_new_state_facts(chk, pid)
             elif ob == 'preamble':
                 buildjob.start_self_facts(chk, pid)
+            elif ob == 'tmpnames':
+                buildjob.tmp_names_distinct(chk, pid)
             elif ob == 'crash':
                 buildjob.crash_facts(chk, pid)
         chk.finish(buildjob.make_replay(chk, rep, scn))
